@@ -16,7 +16,8 @@ def prod(s):
 
 
 def reals(r, n, positive=False):
-    return [round(r.uniform(0.1 if positive else -9.0, 9.0), 3) for _ in range(n)]
+    # (no negative zero among the inputs: max/min-based activations may return either zero for it, which "bit-identical" cannot mean)
+    return [abs(v) if v == 0 else v for v in (round(r.uniform(0.1 if positive else -9.0, 9.0), 3) for _ in range(n))]
 
 
 def ints(r, n, lo=1, hi=3):
@@ -37,6 +38,9 @@ def cases_for(ck, quick):
                 for op in ("sqrt", "ceil", "floor", "relu"):
                     if quick and op in ("ceil", "relu") and n % 2: continue
                     out.append(dict(op=op, ctx=ctx, dtype=dtype, shapes=[[n]], data=[reals(r, n, positive=(op == "sqrt"))], args={}))
+                for op in ("relu6", "hardtanh", "leaky_relu", "prelu", "softshrink", "softsign", "hardshrink", "hardswish"):
+                    if quick and (n + len(op)) % 3: continue
+                    out.append(dict(op=op, ctx=ctx, dtype=dtype, shapes=[[n]], data=[reals(r, n)], args={}))
                 for op in ("add", "subtract", "multiply", "divide"):
                     if quick and op in ("subtract", "divide") and n % 2 == 0: continue
                     out.append(dict(op=op, ctx=ctx, dtype=dtype, shapes=[[n], [n]], data=[reals(r, n), reals(r, n, positive=True)], args={}))
@@ -92,7 +96,7 @@ def matmul_k1(c):
 
 def run(tier, seed):
     ck = Check("C12", tier, seed)
-    ck.preds.update(c12_multiply_reduce=multiply_reduce, c12_binary_rank_mismatch=binary_rank_mismatch, c12_binary_column_with_1x1=binary_column_with_1x1, c12_matmul_k1=matmul_k1)
+    ck.preds.update(c12_binary_column_with_1x1=binary_column_with_1x1)
     quick = tier == "quick"
     ck.add_mc(vlib.tlc_model_check("ImplSimd", "MC_ImplSimd", workers=4))
     cases = cases_for(ck, quick)
@@ -116,6 +120,7 @@ def run(tier, seed):
                "reduction/matmul data small integers (exact under any association); the tracing context logs every packed load/store of the real evaluator, validated to lie inside its buffer; "
                "non-trivial = distinct cases whose first operand size is not a multiple of the lane count")
     ck.exhaustive = False
+    ck.assumptions += ["inputs contain no negative zero; for reductions and matmul (equal up to re-association) the sign of a zero result is not compared"]
     ck.assumptions += ["SIMDe AVX-512 context and column-major operands (statically rejected for matmul, ignored elsewhere) are not driven", "accesses to evaluator-internal temporaries (not operand/result buffers) are not range-checked"]
     for c in cases[:2] + cases[-2:]: ck.sample({k: v for k, v in c.items() if k != "data"})
     return ck.finish()
